@@ -47,6 +47,16 @@ def runReord (c : Case) : Verdict :=
     ">r" ++ toString i ++ "\n" ++
       (if w > 0 then String.join ((List.range ((sl + w.toNat - 1) / w.toNat)).map fun k => String.ofList ((seq.drop (k * w.toNat)).take w.toNat) ++ "\n")
        else String.ofList seq ++ "\n")
+  if c.get "writer" == "variants" then
+    -- variants.WriteVariants: header, then one row per record that is not the reference, in index order; the counter
+    -- starts at `first` (1 when the reader consumed the reference)
+    let first := c.nat "first"
+    let refidx := c.int "refidx"
+    let row (i : Nat) : String := if Int.ofNat i = refidx then "" else "r" ++ toString i ++ ",\n"
+    let model := "query,mutations\n" ++ String.join (Reorder.runFrom first (perm.map fun i => (i + first, row i)))
+    let spec := "query,mutations\n" ++ String.join (((List.range (c.nat "n")).filter fun (i : Nat) => (Int.ofNat i) != refidx).map fun i => "r" ++ toString i ++ ",\n")
+    functional (c.get "go") model spec
+  else
   let model := String.join (Reorder.run (perm.map fun i => (i, recText i)))
   let spec := String.join ((List.range (c.nat "n")).map recText)
   functional (c.get "go") model spec
